@@ -29,6 +29,10 @@ LEVEL_NOTE = (
     'harness; an underflowing quotient is known finding D1605 (modelled, guarded theorems).')
 DESIGN_REF = '§4 C16'
 
+# theorems of the integrated pipeline model (Props/X01.lean) that carry this property's theorems to formula TEXTS in a
+# compiled workbook; re-built and audited with this check (harness/common.prepare: soft obligations)
+TRANSPORT = ('XlVerif.Props.X01', ['X01_ROUND_partial'])
+
 TRUSTED = [
     'Lean 4.33 kernel; axioms propext, Classical.choice, Quot.sound only',
     'hand-written model lean/XlVerif/Model/C16.lean of xlfunctions/math.py, tied to the code by this '
